@@ -91,9 +91,9 @@ type addr struct{}
 func (addr) Network() string { return "tcp" }
 func (addr) String() string  { return "10.0.0.1:5140" }
 
-func RemoteAddr(c *net.TCPConn) net.Addr                  { return addr{} }
-func SetKeepAlive(c *net.TCPConn, keepalive bool) error   { return nil }
-func SetReadDeadline(c *net.TCPConn, t time.Time) error   { return nil }
+func RemoteAddr(c *net.TCPConn) net.Addr                                { return addr{} }
+func SetKeepAlive(c *net.TCPConn, keepalive bool) error                 { return nil }
+func SetReadDeadline(c *net.TCPConn, t time.Time) error                 { return nil }
 func TrySetTCPReadBuffer(c *net.TCPConn, max int, min int) (int, error) { return max, nil }
 
 func IsNetworkTimeout(err error) bool { return err == ErrTimeout }
